@@ -483,6 +483,6 @@ def main(tier, seed):
                      "unspecified); their reported spelling may be any path that canonicalises to them",
                      "DuplicateFile warnings are counted exactly only when no directory symlink lies below a reference directory "
                      "(otherwise the number of routes to a file is implementation defined)",
-                     "special files given explicitly are outside the statement; permission-denied entries are not exercised (the "
-                     "worker runs as root)"],
+                     "special files given explicitly are outside the statement; permission-denied entries are exercised by the "
+                     "permissions family only where privileges can be dropped with setpriv (counter permission_cases)"],
     )
